@@ -2407,3 +2407,96 @@ def r13(cx):
 
 
 RS.explanation += ' A command without a command name sets $? on every normal return (R13).'
+
+
+# ---------------------------------------------------------------------------------------
+# added after seed wave 5 (C02-s9: the executor searched $PATH also for names containing a slash)
+_SEARCH_PATH = 'yash_env::semantics::command::search::search_path'
+_SEARCH_PATH_REVIEWED = {
+    # function (prefix) -> reason why the call needs no slash test of its own
+    'yash_env::semantics::command::search::resolve_builtin':
+        'the name is that of a substitutive built-in found in the built-in table; classify() sends every name containing a slash to '
+        'Target::External before the table is consulted (C02.R1)',
+}
+
+
+@RS.rule('C02.R14', 'K-GUARD', 'a command name containing a slash is never looked up in $PATH (XCU 2.9.1.4 step 2: it is executed as the '
+         'pathname it is): every call of search_path - command search, the executor of external utilities, the exec built-in - is '
+         'behind the "name contains no slash" edge of a test of that very name, except the reviewed substitutive-built-in look-up; '
+         '`sub/tool` must not run $dir/sub/tool, and a missing `./tool` is 127, not a namesake under $PATH')
+def r14(cx):
+    F = cx.F
+    n = 0
+    for k in sorted(F.bodies):
+        if '::tests::' in k or k.endswith('::tests'):
+            continue
+        raw = F.bodies[k]
+        if not Q.find_calls(raw, [_SEARCH_PATH]):
+            continue
+        if '::tests::' in raw.root:
+            continue
+        body = raw
+        du = Q.DefUse(body)
+        for b, t in Q.find_calls(body, [_SEARCH_PATH]):
+            n += 1
+            reviewed = [r for p_, r in _SEARCH_PATH_REVIEWED.items() if body.root.startswith(p_)]
+            if reviewed:
+                cx.site('%s: search_path at %s (reviewed: %s)' % (body.fn, body.loc(t), reviewed[0][:60]))
+                continue
+            cx.fn(body.fn)
+            name_src = Q.arg_names(body, du, t)
+            guarded = False
+            for org, lab, e in Q.implied_conditions(F, body, du, b):
+                org, lab = Q.peel_not(du, org, lab)
+                if Q.cond_is_call(org, [re.compile(r'^core::str::<impl str>::contains(::<.*>)?$')]) and lab == ('bool', False):
+                    pat = Q.arg_names(body, du, org['t'])
+                    if any(x is not None and "'/'" in str(x) or '"/"' in str(x) for x in pat[1:]):
+                        guarded = True
+            cx.site('%s: search_path(%s) at %s behind the no-slash edge: %s' % (body.fn, ', '.join(str(x) for x in name_src[1:]), body.loc(t), guarded))
+            if not guarded:
+                cx.violation(body.root, 'path-search-for-slash-name', 'search_path is reached without the test that the name contains no '
+                             'slash: a relative pathname such as `sub/tool` or `./tool` is joined to every $PATH directory and a namesake '
+                             'found there runs instead of the file named (or instead of status 127 when it does not exist)', loc=body.loc(t))
+    cx.floor(n, 4, 'calls of search_path (command search x2, executor of external utilities, exec built-in)')
+
+
+RS.explanation += ' A name containing a slash is never searched in $PATH: every search_path call is behind the no-slash test (R14).'
+
+
+# ---------------------------------------------------------------------------------------
+# added after seed wave 5 (C02-s10: the pipeline status was returned to the callers and the job-controlled caller dropped it)
+_MULTI = 'yash_semantics::command::pipeline::execute_multi_command_pipeline'
+
+
+@RS.rule('C02.R15', 'K-PASS', 'the exit status of a multi-command pipeline reaches $? on EVERY way of running it - directly and in the '
+         'job-controlled foreground subshell of `set -m`: execute_multi_command_pipeline stores env.exit_status itself, or, when it '
+         'hands the status back, each of its callers stores the value it gets (a caller that only forwards the divert leaves $? at the '
+         'status of the command BEFORE the pipeline, and `!`, &&, ||, if, while over the pipeline take the wrong branch)')
+def r15(cx):
+    F = cx.F
+    body = F.main_body(_MULTI)
+    cx.fn(body.fn)
+    own = [w for w in Q.field_writes(F.inlined(body), ENV_ADT, 'exit_status') if w[3] == 'assign']
+    callers = [(b, blk, t) for b, blk, t in F.callers_of(lambda names, t: _MULTI in names) if '::tests' not in b.root]
+    cx.require(callers, 'execute_multi_command_pipeline has no caller (anchor moved)')
+    cx.site('%s: stores env.exit_status itself x%d; callers: %s' % (body.fn, len(own), sorted({b.root.split('::')[-1] for b, _, _ in callers})))
+    if own:
+        return
+    # the status is handed back: every caller must store what it receives
+    for b, blk, t in callers:
+        cb = F.inlined(F.bodies[b.fn]) if b.fn in F.bodies else b
+        cx.fn(cb.fn)
+        seeds = {t2['dest']['l'] for blk2, t2 in Q.find_calls(cb, [_MULTI])}
+        T = Q.forward_taint(cb, seeds)
+        stored = False
+        for i, j, s, how, f in Q.field_writes(cb, ENV_ADT, 'exit_status'):
+            if how == 'assign' and any(p_['l'] in T for p_ in Q.rvalue_places(s['rv'])):
+                stored = True
+        cx.site('%s: receives the pipeline status; stores it in env.exit_status: %s' % (cb.fn, stored))
+        if not stored:
+            cx.violation(cb.root, 'pipeline-status-dropped', 'the status returned by execute_multi_command_pipeline is not stored in '
+                         'env.exit_status by this caller: the pipeline leaves $? at the status of the previous command '
+                         '(`set -m; false | true; echo $?`)', loc=cb.loc(t))
+
+
+RS.explanation += ' The status of a multi-command pipeline reaches $? on every way of running it, the job-controlled one included (R15).'
